@@ -39,7 +39,9 @@ def z3_diff(name, new, base, timeout_s=150):
     if len(a) != len(b):
         return "unknown", None
     neq = " ".join(f"(distinct {x} {y})" for x, y in zip(a, b))
-    q = f"(set-logic QF_BV)\n{decl}(assert (or {neq}))\n(check-sat)\n(get-model)\n"
+    # carries are 0 or 1 wherever the crate calls these functions (`cadd_carry_le`): look for API-realisable differences
+    pre = "".join(f"(assert (bvule {n} (_ bv1 {w})))\n" for n, w in new["params"] if n == "carry")
+    q = f"(set-logic QF_BV)\n{decl}{pre}(assert (or {neq}))\n(check-sat)\n(get-model)\n"
     out = ""
     for cmd in (["cvc5", "--produce-models", f"--tlimit={timeout_s * 1000}"], ["z3", "-in", f"-T:{timeout_s}"]):
         try:
@@ -65,73 +67,107 @@ def z3_diff(name, new, base, timeout_s=150):
     return "unknown", None
 
 
-TYPES2 = {"u8": ("F8x3", 8, 3), "u16": ("F16x2", 16, 2), "u32": ("F32x3", 32, 3), "u64": ("F64x5", 64, 5), "u128": ("F128x2", 128, 2), "usize": ("FU64x2", 64, 2)}
+TYPES2 = {"u8": ("F8x3", 8, 3), "u16": ("F16x5", 16, 5), "u32": ("F32x3", 32, 3), "u64": ("F64x5", 64, 5), "u128": ("F128x3", 128, 3), "usize": ("FU64x3", 64, 3)}
+# which generated functions a property's operations go through
+RELEVANT = {"C01": ("mask", "cadd", "csub", "wmul"), "C02": ("mask", "csub")}
 
 
-def api_lines(name, cex):
-    """harness cases that feed the counterexample words to the public operators"""
+def api_lines(name, cex, prop="C01"):
+    """harness cases that feed the counterexample words to the public operators of `prop`"""
     ty, fn = name.split("_", 1)
     tag, w, n = TYPES2[ty]
+    top = (1 << w) - 1
     def vec(words, length):
         ws = (list(words) + [0] * n)[:n]
         return f"{tag}:{length}:" + ".".join(f"{x:x}" for x in ws)
     lines = []
     for dbg in ("0", "1"):
-        if fn == "wmul":
+        if fn == "wmul" and prop == "C01":
             a, b = cex.get("self_", 0), cex.get("rhs", 0)
             for form in ("vv", "ar"):
                 lines.append(f"mul {dbg} {vec([a], 2 * w)} {vec([b], 2 * w)} {form}")
                 lines.append(f"mul {dbg} {vec([a, 1], n * w)} {vec([b, 1], n * w)} {form}")
         elif fn in ("cadd", "csub"):
             a, r, c = cex.get("self_", 0), cex.get("rhs", 0), cex.get("carry", 0)
-            op = "add" if fn == "cadd" else "sub"
-            lo = ([(1 << w) - 1, 1] if fn == "cadd" else [0, 1]) if c else [0, 0]
-            for form in ("vv", "ar"):
-                lines.append(f"{op} {dbg} {vec([lo[0], a], n * w)} {vec([lo[1], r], n * w)} {form}")
-                lines.append(f"{op} {dbg} {vec([a], n * w)} {vec([r], n * w)} {form}")
+            if prop == "C01":
+                op = "add" if fn == "cadd" else "sub"
+                lo = ([top, 1] if fn == "cadd" else [0, 1]) if c else [0, 0]
+                for form in ("vv", "ar"):
+                    # the word pair in the middle of a three-word vector, with the carry/borrow coming in from below and
+                    # going out into a third word, where a lost or spurious carry is visible
+                    lines.append(f"{op} {dbg} {vec([lo[0], a, 5], 3 * w)} {vec([lo[1], r, 2], 3 * w)} {form}")
+                    lines.append(f"{op} {dbg} {vec([lo[0], a], 3 * w)} {vec([lo[1], r], 3 * w)} {form}")
+                    lines.append(f"{op} {dbg} {vec([a], 3 * w)} {vec([r], 3 * w)} {form}")
+            elif prop == "C02" and fn == "csub":
+                # dividend and divisor with equally many significant bits, so that the first step is `rem -= divisor`
+                lo = [0, 1] if c else [0, 0]
+                lines.append(f"divrem {dbg} {vec([lo[0], a, 3], 3 * w)} {vec([lo[1], r, 2], 3 * w)}")
+                lines.append(f"divrem {dbg} {vec([lo[0], a, 7], 3 * w)} {vec([lo[1], r, 2], 3 * w)}")
+                lines.append(f"div {dbg} {vec([lo[0], a, 3], 3 * w)} {vec([lo[1], r, 2], 3 * w)} vv")
     return lines
 
 
-def run(work):
+def run(work, prop="C01"):
     res = {"status": "proved", "changed": [], "lines": [], "log": ""}
     src = os.path.join(os.environ.get("VERIF_REPO", "/repo"), "src/utils.rs")
+    rel = RELEVANT[prop]
     try:
         text, smts, errors = T.translate(src)
     except Exception as ex:        # the translator itself failed on the new source
         res.update(status="broken", log=f"translator failed: {ex}")
         return res
-    if errors:
-        res.update(status="broken", changed=sorted(errors), log="not in the translatable subset: " + json.dumps(errors))
+    bad = sorted(k for k in errors if "_" not in k or k.split("_", 1)[1] in rel)
+    if bad:
+        res.update(status="broken", changed=bad, log="not in the translatable subset: " + json.dumps({k: errors[k] for k in bad}))
         return res
-    # one self-contained file: the freshly generated definitions followed by the equality theorems of BvaProofs/GenWords.lean
-    thms = open(os.path.join(LEAN, "BvaProofs/GenWords.lean")).read().replace("import BvaGen.Words\n", "", 1)
+    # one self-contained file: the freshly generated definitions, then the equality theorems of BvaProofs/GenWords.lean for
+    # the functions this property's operations go through
+    thm_lines = []
+    for l in open(os.path.join(LEAN, "BvaProofs/GenWords.lean")).read().splitlines():
+        m = re.match(r"theorem (\w+?)_eq ", l)
+        if m:
+            if m.group(1).split("_", 1)[1] in rel and m.group(1) not in errors:
+                thm_lines.append(l)
+        elif not l.startswith("import "):
+            thm_lines.append(l)
     os.makedirs(work, exist_ok=True)
-    chk = os.path.join(work, "GenWordsCheck.lean")
-    open(chk, "w").write(text + "\n" + thms)
+    chk = os.path.join(work, f"GenWordsCheck_{prop}.lean")
+    body = text + "\n" + "\n".join(thm_lines) + "\n"
+    open(chk, "w").write(body)
     res["regenerated_equals_committed"] = (text == open(os.path.join(LEAN, "BvaGen/Words.lean")).read())
     p = subprocess.run(["lake", "env", "lean", chk], cwd=LEAN, stdout=subprocess.PIPE, stderr=subprocess.STDOUT, text=True)
     if p.returncode == 0:
         return res
     res["log"] = p.stdout[-3000:]
+    # which equalities failed
+    blines = body.splitlines()
+    failed = set()
+    for m in re.finditer(r"GenWordsCheck_\w+\.lean:(\d+):\d+: error", p.stdout):
+        ln = int(m.group(1)) - 1
+        mm = re.match(r"theorem (\w+?)_eq ", blines[ln]) if ln < len(blines) else None
+        if mm:
+            failed.add(mm.group(1))
+    if not failed:
+        res.update(status="broken", log=res["log"] + "\nthe generated file does not check, and the failing equality could not be identified")
+        return res
     base = json.load(open(BASELINE))
     smts = json.loads(json.dumps(smts))
-    changed = [k for k in smts if smts[k] != base.get(k)]
-    res["changed"] = changed
+    res["changed"] = sorted(failed)
     verdicts = {}
-    for k in changed:
-        v, cex = z3_diff(k, smts[k], base.get(k))
+    for k in sorted(failed):
+        v, cex = z3_diff(k, smts.get(k), base.get(k))
         verdicts[k] = v
         if v == "sat":
-            res["lines"] += api_lines(k, cex)
+            res["lines"] += api_lines(k, cex, prop)
             res["log"] += f"\n{k}: differs from the proved definition on words {json.dumps({a: hex(b) for a, b in cex.items()})}"
     if any(v == "sat" for v in verdicts.values()):
         res["status"] = "counterexample"
-    elif changed and all(v == "unsat" for v in verdicts.values()):
+    elif all(v == "unsat" for v in verdicts.values()):
         res["status"] = "smt-equal"
-        res["log"] += "\nthe SMT solver proves every changed definition equal, on all words, to the one the Lean equalities were checked against: " + ", ".join(changed)
+        res["log"] += "\nthe SMT solver proves every changed definition equal, on all words, to the one the Lean equalities were checked against: " + ", ".join(sorted(failed))
     else:
         res["status"] = "broken"
-        res["log"] += "\nno decision for: " + ", ".join(k for k, v in verdicts.items() if v == "unknown") + (" (Lean equalities fail although no definition changed its SMT form)" if not changed else "")
+        res["log"] += "\nno decision for: " + ", ".join(k for k, v in verdicts.items() if v == "unknown")
     return res
 
 
@@ -142,4 +178,4 @@ if __name__ == "__main__":
         json.dump(smts, open(BASELINE, "w"), indent=1)
         print("baseline written:", len(smts), "definitions")
     else:
-        print(json.dumps(run(os.path.join(ROOT, "work")), indent=1))
+        print(json.dumps(run(os.path.join(ROOT, "work"), sys.argv[1] if len(sys.argv) > 1 else "C01"), indent=1))
